@@ -3,7 +3,15 @@ from tools.drive import Unit
 AR = "asmjit/support/arena.cpp"
 UNITS = [
     Unit(name="c18.arena.alloc_oneshot", props=["C18", "C15", "C16"], tu=AR, roots=["asmjit::Arena::_alloc_oneshot"], target="Arena__alloc_oneshot",
-         contracts="contracts/c18_arena.h", unwind=12, extra_cbmc=["--malloc-may-fail", "--malloc-fail-null"], object_bits=10,
-         kind="bounded", bound_note="block chain: current block + <= 2 following blocks (the state after a soft reset), block payloads <= 4096 bytes; request size symbolic up to 2^20",
+         contracts="contracts/c18_arena.h", unwind=12, extra_cbmc=["--malloc-may-fail", "--malloc-fail-null"], object_bits=9,
+         kind="bounded", quick_defines=["VERIF_MAXSHIFT=12"], thorough_defines=["VERIF_MAXSHIFT=16"], timeout=1500,
+         bound_note="block chain: current block + <= 2 following blocks (the state after a soft reset), block payloads <= 512 bytes; request size and block size shift symbolic up to 2^12 (quick) / 2^16 (thorough)",
          trusted=["malloc/free: CBMC built-in model with --malloc-may-fail --malloc-fail-null"]),
+]
+
+UNITS += [
+    Unit(name="c18.string.prepare", props=["C18", "C15"], tu="asmjit/core/string.cpp", roots=["asmjit::String::prepare"], target="String_prepare",
+         contracts="contracts/c18_string.h", unwind=44, extra_cbmc=["--malloc-may-fail", "--malloc-fail-null"], object_bits=10,
+         kind="bounded", bound_note="pre-state heap/external buffers <= 40 bytes (all embedded states are covered exactly); requested size symbolic up to 2^40",
+         trusted=["malloc/free: CBMC built-in model with --malloc-may-fail --malloc-fail-null", "memcpy: byte loop stub"]),
 ]
